@@ -315,3 +315,121 @@ Theorem C16_twice_differs_collection_member :
   flat_ok (IItems false (Some [coll_idless])) = false /\
   flatten_m (IItems false (Some [coll_idless])) = Ok coll_idless /\ flatten_m coll_idless = Ok (IIri false ida).
 Proof. repeat split; vm_compute; reflexivity. Qed.
+
+(* ---- the transitivity hypothesis discharged on the domain of C14 (b42) ---- *)
+(* Every theorem above that speaks of lists carries "eqv is symmetric and transitive on a set D that holds the ids
+   the de-duplications compare" as a hypothesis.  For the comparison the model and the code run
+   (ideq a b = IRI.Equals(a, b, false), Model/IriEq.v) symmetry holds on all strings and transitivity is a THEOREM
+   on C14's domain  iri_dom  (Model/IriNf.v: absolute URL of the grammar of Model/Url.v whose query string holds
+   no upper-case letter; C14_trans).  Below, each of those theorems is restated for  flatten_*_m  with a
+   DECIDABLE DOMAIN PREDICATE ON THE VALUE in place of the hypothesis (Proofs/FlattenDomP.v):
+        fields_dom k fs  =  for every step of Flatten<k>Properties:  a FlattenToIRI position: nothing;
+                            a FlattenItemCollection position: forallb iri_dom (ids of its entries);
+                            a Flatten position: flat_ok (the clause of section 4, unchanged) and forallb iri_dom
+                            (ids of the members of the list / opened collection).
+   No pool, no sym_on / trans_on evaluation.  fields_dom is exactly fields_good with D := iri_dom
+   (C16_domain_exact), and it is closed under flattening (C16_domain_closed).  The generic theorems stay for
+   ids outside the grammar (there transitivity remains the decidable hypothesis trans_on of C16_idempotent_code).
+   The same development instantiated with the wide comparison of Model/IriEqU.v (all valid UTF-8, escapes;
+   builder b33) gives the *_domain_u theorems: they speak of flatten_* run with iri_equ, which C14_u_agrees_plain
+   proves equal to ideq on iri_dom. *)
+From AP.Model Require Import IriNf IriEqU.
+From AP.Proofs Require Import RecipNfP FlattenDomP.
+
+Theorem C16_refines_list_domain : forall c,
+  forallb iri_dom (opt_keys c) = true -> flatten_items_m c = Ok (flat_list_spec ideq c).
+Proof. exact m_refines_list. Qed.
+
+Theorem C16_flatten_list_domain : forall l,
+  forallb iri_dom (keys_of l) = true ->
+  flatten_m (IItems false (Some l)) = Ok (normalize (flat_list_spec ideq (Some l))).
+Proof. exact m_flatten_list. Qed.
+
+Theorem C16_idempotent_list_domain : forall c c',
+  forallb iri_dom (opt_keys c) = true -> flatten_items_m c = Ok c' ->
+  flatten_items_m c' = Ok c' /\ forallb iri_dom (opt_keys c') = true.
+Proof. exact m_idem_list. Qed.
+
+Theorem C16_flatten_value_domain : forall i,
+  flat_ok i = true -> forallb iri_dom (flat_keys i) = true -> flatten_m i = Ok (flat_multi ideq i).
+Proof. exact m_flatten_value. Qed.
+
+Theorem C16_idempotent_flatten_domain : forall i i',
+  flat_ok i = true -> forallb iri_dom (flat_keys i) = true -> flatten_m i = Ok i' ->
+  flatten_m i' = Ok i' /\ flat_ok i' = true /\ forallb iri_dom (flat_keys i') = true.
+Proof. exact m_idem_flatten. Qed.
+
+Theorem C16_value_domain : forall k fs, fields_dom k fs = true ->
+  exists fs', flatten_fields_m k fs = Ok fs' /\
+    (forall s, In s (steps_of k) -> getf (step_fid s) fs' = fcanon (spec_out ideq s (getf (step_fid s) fs))) /\
+    (forall f, flattened_in k f = false -> getf f fs' = getf f fs).
+Proof. exact m_value. Qed.
+
+Theorem C16_entries_domain : forall k fs fs', fields_dom k fs = true -> flatten_fields_m k fs = Ok fs' ->
+  forall s, In s (steps_of k) -> forall y, In y (out_entries s (getf (step_fid s) fs')) ->
+  y = INil \/ exists x, In x (in_entries s (getf (step_fid s) fs)) /\ (y = x \/ y = flat_item x).
+Proof. exact m_entries. Qed.
+
+Theorem C16_no_new_iri_domain : forall k fs fs', fields_dom k fs = true -> flatten_fields_m k fs = Ok fs' ->
+  forall s, In s (steps_of k) -> forall p i, In (IIri p i) (out_entries s (getf (step_fid s) fs')) ->
+  exists x, In x (in_entries s (getf (step_fid s) fs)) /\ (x = IIri p i \/ (p = false /\ i = link_of x)).
+Proof. exact m_no_new_iri. Qed.
+
+(* "flattening twice equals flattening once", whole value, the code's comparison, no hypothesis on it *)
+Theorem C16_idempotent_domain : forall k fs fs', fields_dom k fs = true ->
+  flatten_fields_m k fs = Ok fs' -> flatten_fields_m k fs' = Ok fs'.
+Proof. exact m_idem. Qed.
+
+Theorem C16_idempotent_properties_domain : forall x x', props_dom x = true ->
+  flatten_properties_m x = Ok x' -> flatten_properties_m x' = Ok x'.
+Proof. exact m_idem_properties. Qed.
+
+(* the domain is closed under flattening, so the theorems chain (third application = second = first) *)
+Theorem C16_domain_closed : forall k fs fs', fields_dom k fs = true ->
+  flatten_fields_m k fs = Ok fs' -> fields_dom k fs' = true.
+Proof. exact m_closed. Qed.
+
+(* the boolean is the generic domain with D := iri_dom, both directions *)
+Theorem C16_domain_exact : forall k fs,
+  fields_dom k fs = true <-> fields_good (fun a => iri_dom a = true) k fs.
+Proof. exact (fun k fs => conj (fields_dom_p_spec iri_dom k fs) (fields_dom_p_complete iri_dom k fs)). Qed.
+
+(* the pool form of C16_idempotent_code: a pool inside the domain needs neither sym_on nor trans_on *)
+Theorem C16_pool_in_domain : forall dom k fs,
+  forallb iri_dom dom = true -> fields_goodb dom k fs = true -> fields_dom k fs = true.
+Proof. exact pool_in_domain. Qed.
+
+(* the wide comparison (Model/IriEqU.v): same statements for the flatteners run with iri_equ . . false on
+   iri_dom_u = valid UTF-8, url.Parse gives scheme and host, literal part of the query in one letter case *)
+Theorem C16_value_domain_u : forall k fs, fields_dom_p iri_dom_u k fs = true ->
+  exists fs', flatten_fields idequ k fs = Ok fs' /\
+    (forall s, In s (steps_of k) -> getf (step_fid s) fs' = fcanon (spec_out idequ s (getf (step_fid s) fs))) /\
+    (forall f, flattened_in k f = false -> getf f fs' = getf f fs).
+Proof. exact u_value. Qed.
+Theorem C16_idempotent_domain_u : forall k fs fs', fields_dom_p iri_dom_u k fs = true ->
+  flatten_fields idequ k fs = Ok fs' -> flatten_fields idequ k fs' = Ok fs'.
+Proof. exact u_idem. Qed.
+Theorem C16_idempotent_properties_domain_u : forall x x', props_dom_p iri_dom_u x = true ->
+  flatten_properties idequ x = Ok x' -> flatten_properties idequ x' = Ok x'.
+Proof. exact u_idem_properties. Qed.
+
+(* non-vacuity: the example value of section 6 lies in the domain (four ids, two of them variants of one
+   addressee; attributedTo is a two-member list), and so does a value whose ids carry escapes and non-ASCII
+   bytes for the wide instance *)
+Example C16_example_in_domain :
+  fields_dom FKActivity ex16 = true /\ props_dom (IObj true KActivity ex16) = true /\
+  (exists fs', flatten_fields_m FKActivity ex16 = Ok fs' /\ fields_dom FKActivity fs' = true /\ fs' <> ex16).
+Proof.
+  split; [vm_compute; reflexivity|]. split; [vm_compute; reflexivity|].
+  eexists. split; [vm_compute; reflexivity|]. split; [vm_compute; reflexivity|]. discriminate.
+Qed.
+Definition ex16_u : list (fid * fval) :=
+  [(F_Type, FStr (B "Create"));
+   (F_To, FItems (Some [IIri false (hx "68747470733a2f2f6578c3a46d706c652e636f6d2f752f6ac3bc7267656e");
+                        IIri false (hx "48545450533a2f2f4558c3844d504c452e636f6d2f752f2e2f6a2543332542437267656e")]))].
+Example C16_example_in_domain_u :
+  fields_dom_p iri_dom_u FKActivity ex16_u = true /\ fields_dom FKActivity ex16_u = false /\
+  flatten_fields idequ FKActivity ex16_u
+  = Ok [(F_Type, FStr (B "Create"));
+        (F_To, FItems (Some [IIri false (hx "68747470733a2f2f6578c3a46d706c652e636f6d2f752f6ac3bc7267656e")]))].
+Proof. split; [vm_compute; reflexivity|]. split; vm_compute; reflexivity. Qed.
